@@ -7,7 +7,6 @@ import (
 	"github.com/hashicorp/eventlogger"
 )
 
-func verifFireTimer()
 
 type chCtx struct{ done chan struct{} }
 
